@@ -445,7 +445,7 @@ static void run_op(struct prog_s * p, char * op) {
         printf(" %d %" PRId64, rc, rc ? 0 : n);
         return;
     }
-    if (!strcmp(c, "rd")) {
+    if (!strcmp(c, "rd") || !strcmp(c, "rdn")) {
         uint16_t sig = (uint16_t) TOKU(1); int64_t start = TOKI(2); int64_t count = TOKI(3);
         uint32_t dt = p->dtype[sig & 0xff];
         if (!dt) { struct jls_signal_def_s d; if (0 == jls_rd_signal(p->rd, sig, &d)) dt = d.data_type; else dt = JLS_DATATYPE_F32; }
@@ -458,8 +458,12 @@ static void run_op(struct prog_s * p, char * op) {
         if (!rc && nb) {
             int rem = (int) (((uint64_t) count * w) % 8);
             if (rem) b[nb - 1] &= (uint8_t) ((1u << rem) - 1);     /* bits past the window are unspecified */
-            printf(" 0 %zu %016" PRIx64 " ", nb, fnv64(b, nb));
-            hex_print(b, nb < 24 ? nb : 24);
+            if (c[2] == 'n') {
+                printf(" 0 %zu", nb);      /* rdn: only the result code and size (content unspecified) */
+            } else {
+                printf(" 0 %zu %016" PRIx64 " ", nb, fnv64(b, nb));
+                hex_print(b, nb < 24 ? nb : 24);
+            }
             if (!p->slack && b[nb] != 0xA5) printf(" OVERRUN");
         } else printf(" %d", rc);
         free(b);
